@@ -1957,7 +1957,22 @@ fn run_case(c: &Case) -> String {
                                         ZST_SCRIPT.with(|z| *z.borrow_mut() = None);
                                         b
                                     };
-                                    let verdict = [("the used test", direct), ("a clone of the used test", run_one(&used)), ("a fresh test with a re-entrant driver", reentrant), ("a fresh test with a zero-sized driver", zst)]
+                                    // a test that was parsed and bound on ANOTHER thread and then moved here (nothing of a test lives in
+                                    // thread-local state of the thread that made it)
+                                    let moved = {
+                                        let (src_t, sigs_t) = (c.src.clone(), fresh.signals.iter().filter(|s| !matches!(s.typ, SignalType::Virtual { .. })).cloned().collect::<Vec<_>>());
+                                        let made = std::thread::Builder::new()
+                                            .stack_size(64 << 20)
+                                            .spawn(move || catch_unwind(AssertUnwindSafe(|| ParsedTestCase::from_str(&src_t).ok().and_then(|p| p.with_signals(sigs_t).ok()))).unwrap_or(None))
+                                            .ok()
+                                            .and_then(|h| h.join().ok())
+                                            .flatten();
+                                        match made {
+                                            Some(t) => run_one(&t),
+                                            None => "NO TEST".to_string(),
+                                        }
+                                    };
+                                    let verdict = [("the used test", direct), ("a clone of the used test", run_one(&used)), ("a fresh test with a re-entrant driver", reentrant), ("a fresh test with a zero-sized driver", zst), ("a test made on another thread", moved)]
                                         .iter()
                                         .find_map(|(who, b)| {
                                             if *b == a {
@@ -2096,6 +2111,29 @@ fn adapt_check<D: TestDriver<Error = DrvError>>(c: &Case, tc: &TestCase, driver:
         // count() visits every item (and makes every call); the items themselves are not seen
         let n = it.count();
         return if n == main_items.len() { String::new() } else { format!("count() = {n} with {} items", main_items.len()) };
+    } else if c.seed % 5 == 3 {
+        // peek() before every next(): the peeked item is the next item, and is fetched once
+        let mut pk = it.peekable();
+        loop {
+            let peeked = pk.peek().is_some();
+            match pk.next() {
+                None => {
+                    if peeked && problem.is_empty() {
+                        problem = "peek() saw an item but next() gave None".to_string();
+                    }
+                    break;
+                }
+                Some(item) => {
+                    if !peeked && problem.is_empty() {
+                        problem = "peek() saw the end but next() gave an item".to_string();
+                    }
+                    got.push(line(item));
+                }
+            }
+            if got.len() > main_items.len() + 2 {
+                break;
+            }
+        }
     } else if c.seed % 5 == 0 {
         let last = it.last().map(line);
         return if last.as_ref() == main_items.last() { String::new() } else { format!("last() = {:.60?} vs {:.60?}", last, main_items.last()) };
